@@ -121,19 +121,25 @@ void sim_event(const char *fmt, ...) {
 uint64_t sim_event_hash(void) { return ev_hash; }
 uint64_t sim_sched_hash(void) { return sched_hash; }
 
+/* race.c */
+extern int race_in_signal;
+void race_note_stack(void *lo, size_t sz); void race_thread_start(int parent, int child); void race_thread_end(int tid);
+void race_thread_join(int joiner, int joined); void race_acquire(int tid, const void *obj); void race_release(int tid, const void *obj);
+bool sim_proc_race(SimProc *p);
 /* ======================================================================
  * images
  * ====================================================================== */
 #define DECL_IMG(n) \
     extern char __start_imgdata_##n[], __stop_imgdata_##n[], __start_imgbss_##n[], __stop_imgbss_##n[]; \
     extern int nano_##n##_main(int, char **);
-DECL_IMG(vm) DECL_IMG(vmd) DECL_IMG(cop) DECL_IMG(virt)
+DECL_IMG(vm) DECL_IMG(vmd) DECL_IMG(vmdt) DECL_IMG(cop) DECL_IMG(virt)
 extern char __start_imgdata_nanoc[], __stop_imgdata_nanoc[], __start_imgbss_nanoc[], __stop_imgbss_nanoc[];
 extern int nanoc_main(int, char **);
 
 static SimImage images[] = {
     { "nano_vm",   nano_vm_main,   __start_imgdata_vm,   __stop_imgdata_vm,   __start_imgbss_vm,   __stop_imgbss_vm },
     { "nano_vmd",  nano_vmd_main,  __start_imgdata_vmd,  __stop_imgdata_vmd,  __start_imgbss_vmd,  __stop_imgbss_vmd },
+    { "nano_vmd",  nano_vmdt_main, __start_imgdata_vmdt, __stop_imgdata_vmdt, __start_imgbss_vmdt, __stop_imgbss_vmdt, .race = true },
     { "nano_cop",  nano_cop_main,  __start_imgdata_cop,  __stop_imgdata_cop,  __start_imgbss_cop,  __stop_imgbss_cop },
     { "nano_virt", nano_virt_main, __start_imgdata_virt, __stop_imgdata_virt, __start_imgbss_virt, __stop_imgbss_virt },
     { "nanoc",     nanoc_main,     __start_imgdata_nanoc, __stop_imgdata_nanoc, __start_imgbss_nanoc, __stop_imgbss_nanoc },
@@ -151,10 +157,21 @@ void sim_images_init(void) {
         im->owner = NULL;
     }
 }
+/* race detector support (race.c) */
+bool sim_addr_in_image(const void *q) {
+    const char *p = q;
+    for (int i = 0; i < NIMAGES; i++) if ((p >= images[i].d0 && p < images[i].d1) || (p >= images[i].b0 && p < images[i].b1)) return true;
+    return false;
+}
+bool sim_race_daemon;
 SimImage *sim_image(const char *name) {
-    for (int i = 0; i < NIMAGES; i++) if (strcmp(images[i].name, name) == 0) return &images[i];
+    for (int i = 0; i < NIMAGES; i++) if (strcmp(images[i].name, name) == 0) {
+        if (strcmp(name, "nano_vmd") == 0 && images[i].race != sim_race_daemon) continue;
+        return &images[i];
+    }
     return NULL;
 }
+bool sim_proc_race(SimProc *p) { return p && !p->share && p->img && p->img->race; }
 static void img_save(SimImage *im, char *dst) {
     size_t nd = (size_t)(im->d1 - im->d0), nb = (size_t)(im->b1 - im->b0);
     memcpy(dst, im->d0, nd); memcpy(dst + nd, im->b0, nb);
@@ -205,6 +222,7 @@ static long preempt_countdown;
 static int next_pid;
 static uint64_t pct_change[8]; static int pct_n;
 
+int sim_task_index(SimTask *t) { return t ? t->id : -1; }
 SimProc *sim_cur_proc(void) { return cur ? cur->p : NULL; }
 SimTask *sim_cur_task(void) { return cur; }
 uint64_t sim_now_us(void) { return now_us; }
@@ -257,6 +275,7 @@ static void task_trampoline(void) {
         proc_exit(cur->p, (rc & 0xff) << 8, true);
     } else {
         t->fn(t->arg);
+        race_thread_end(t->id);
         /* a harness peer task ending == its process exits normally */
         if (!cur->p->img) proc_exit(cur->p, 0, true);
     }
@@ -282,6 +301,7 @@ static SimTask *task_new(SimProc *p) {
             memset((char *)t->stack + t->stack_sz - fill, sim_stack_junk & 0xff, fill);
         }
         getcontext(&t->ctx);
+        race_note_stack(t->stack, t->stack_sz); race_thread_start(-1, t->id);
         t->ctx.uc_stack.ss_sp = t->stack; t->ctx.uc_stack.ss_size = t->stack_sz - (sim_stack_shift & ~(size_t)15); t->ctx.uc_link = NULL;
         makecontext(&t->ctx, task_trampoline, 0);
         t->prio = (int)sim_choose(CH_SCHED, 1000000) + 1000;
@@ -983,7 +1003,7 @@ static int k_kill(pid_t pid, int sig) {
     if (sig == SIGTERM && p->sigterm_handler) {
         /* handler runs in the target; our images only set a flag there */
         SimProc *me = cur->p;
-        img_activate(p); p->sigterm_handler(sig); img_activate(me);
+        img_activate(p); race_in_signal++; p->sigterm_handler(sig); race_in_signal--; img_activate(me);
         return 0;
     }
     S.kills++;
@@ -1011,11 +1031,13 @@ static int k_mutex_lock(void *addr) {
         block_on(rdy_mutex, m, "M");
     }
     m->owner = cur;
+    if (sim_proc_race(cur->p)) race_acquire(cur->id, addr);
     if (K.preempt_mean && sim_choose(CH_PREEMPT, 2)) sim_yield("n");   /* descheduled while holding the lock */
     return 0;
 }
 static int k_mutex_unlock(void *addr) {
     SimMutex *m = mutex_get(addr);
+    if (m->owner == cur && sim_proc_race(cur->p)) race_release(cur->id, addr);
     if (m->owner == cur) m->owner = NULL;
     return 0;
 }
@@ -1098,6 +1120,7 @@ int __real_pthread_create(pthread_t *, const pthread_attr_t *, void *(*)(void *)
 int __wrap_pthread_create(pthread_t *t, const pthread_attr_t *a, void *(*fn)(void *), void *arg) {
     if (!cur) return __real_pthread_create(t, a, fn, arg);
     SimTask *nt = task_new(cur->p);
+    if (sim_proc_race(cur->p)) race_thread_start(cur->id, nt->id);
     nt->fn = fn; nt->arg = arg;
     *t = (pthread_t)(uintptr_t)nt;
     S.threads_created++;
@@ -1302,6 +1325,7 @@ int __wrap_pthread_join(pthread_t th, void **ret) {
     SimTask *o = (SimTask *)(uintptr_t)th;
     sim_yield("j");
     if (!(o->state == T_DONE || o->state == T_FREE)) block_on(rdy_task_done, o, "J");
+    if (sim_proc_race(cur->p)) race_thread_join(cur->id, o->id);
     if (ret) *ret = NULL;
     return 0;
 }
@@ -1310,7 +1334,8 @@ int __wrap_pthread_mutex_trylock(pthread_mutex_t *m) {
     SimMutex *sm = mutex_get(m);
     sim_yield("m");
     if (sm->owner && sm->owner != cur && sm->owner->state != T_DONE && sm->owner->state != T_FREE) return EBUSY;
-    sm->owner = cur; return 0;
+    sm->owner = cur; if (sim_proc_race(cur->p)) race_acquire(cur->id, m);
+    return 0;
 }
 int __real_sigprocmask(int, const sigset_t *, sigset_t *);
 int __wrap_sigprocmask(int how, const sigset_t *s, sigset_t *o) { if (!cur) return __real_sigprocmask(how, s, o); if (o) sigemptyset(o); return 0; }
